@@ -236,18 +236,31 @@ def rules_stabilization(run, ids=('C02.3', 'C02.4', 'C02.5')):
         ent = q.kwargs_of(c).get('entered_states')
         if ent is None:
             continue
-        for test, pol, kind in guards(c):
+        # the orthogonal states may have been picked beforehand: for name in [n for n in <full view of names> if isinstance(state_for(n), OrthogonalState)]
+        prefiltered = []
+        lp_ = q.enclosing(c, ast.For)
+        if lp_ is not None and isinstance(lp_.target, ast.Name):
+            for o_ in [lp_.iter] + q.local_origin(F, lp_.iter):
+                o_ = strip_cast(o_)
+                while isinstance(o_, ast.Call) and isinstance(o_.func, ast.Name) and o_.func.id in ('sorted', 'list', 'tuple') and o_.args:
+                    o_ = strip_cast(o_.args[0])
+                if isinstance(o_, ast.ListComp) and len(o_.generators) == 1 and isinstance(o_.generators[0].target, ast.Name) and \
+                        q.unparse(o_.elt) == o_.generators[0].target.id and len(o_.generators[0].ifs) == 1 and full_view(o_.generators[0].iter):
+                    for subj_, ks_, node_ in _isinstance_classes(o_.generators[0].ifs[0]):
+                        if 'OrthogonalState' in ks_ and o_.generators[0].target.id in q.unparse(subj_):
+                            prefiltered.append((ast.Name(id=lp_.target.id, ctx=ast.Load()), True))
+        for test, pol, kind in list(guards(c)) + [(None, True, 'prefiltered')] * bool(prefiltered):
             if not pol and not kind.startswith('early'):
                 continue
             # the guard (or the negated early-exit condition) must establish isinstance(S, OrthogonalState)
-            for subj, ks, node in _isinstance_classes(test):
+            for subj, ks, node in (_isinstance_classes(test) if test is not None else [(prefiltered[0][0], {'OrthogonalState'}, None)]):
                 if 'OrthogonalState' not in ks:
                     continue
-                established = any(a[0] == 'truthy' and a[1].replace(' ', '') == q.unparse(node).replace(' ', '') for a in guard_atoms(c))
+                established = node is None or any(a[0] == 'truthy' and a[1].replace(' ', '') == q.unparse(node).replace(' ', '') for a in guard_atoms(c))
                 if not established:
                     continue
-                fn_, vl = derives(subj)
-                if not fn_ or vl or not scans_everything(subj):
+                fn_, vl = derives(subj) if node is not None else (True, False)
+                if not fn_ or vl or (node is not None and not scans_everything(subj)):
                     continue
                 exprs = [ent]
                 for _ in range(3):
@@ -547,6 +560,10 @@ def rules_memo(run, rid='C02.10'):
 
 def check(run):
     run.guard(rules_memo, run)
+    # two transitions that leave their regions, applied one after the other, leave a compound state with two active children: legality of the configuration
+    # rests on the conflict check judging every pair against the LCA of that pair
+    from .c04 import rules_pairs
+    run.guard(rules_pairs, run, 'C02.11')
     from . import c06
     run.guard(c06.rules_save, run, 'C02', ('.8a', '.8b', '.8c'))
     run.guard(rules_owner, run)
